@@ -26,14 +26,17 @@ structure Cfg where
   truncatesBeforeAppend : Bool
   /-- `Wal::append` refuses bodies above the cap instead of writing a record no reader accepts -/
   appendRejectsOversize : Bool
+  /-- replay groups records positionally: every `BeginTx` drops the records buffered so far
+      (`pending.clear()`), so an unfinished transaction can never leak into a later one -/
+  beginResetsPending : Bool
   deriving Repr, DecidableEq
 
 /-- the source as it is now -/
 def Cfg.current : Cfg :=
   ⟨WalRec.Cfg.current, Generated.walMaxRecordLen, Generated.walOversizeIsEof, Generated.walUndecodableIsEof,
-   Generated.walTruncatesBeforeAppend, Generated.walAppendRejectsOversize⟩
+   Generated.walTruncatesBeforeAppend, Generated.walAppendRejectsOversize, Generated.walReplayResetsPendingAtBegin⟩
 /-- the source as pinned -/
-def Cfg.pinned : Cfg := ⟨WalRec.Cfg.pinned, 1048576, false, false, false, false⟩
+def Cfg.pinned : Cfg := ⟨WalRec.Cfg.pinned, 1048576, false, false, false, false, true⟩
 
 /-- `len.to_le_bytes() ++ crc.to_le_bytes() ++ body` as written by `Wal::append` -/
 def frame (body : Bytes) : Bytes := le4 body.length ++ (le4 (crc32 body) ++ body)
@@ -121,6 +124,25 @@ def commitGo : Option Nat → List Rec → List Tx → List Rec → Except PErr 
 /-- mirrors `replay_committed_from_path` applied to the records of the file -/
 def committed (rs : List Rec) : Except PErr (List Tx) := commitGo none [] [] rs
 
+/-- the grouping loop WITHOUT the reset at `BeginTx` (the buffered records of an unfinished transaction stay and
+    are handed out with the next transaction that commits): what the source does when the recogniser finds no
+    `pending.clear()` in the `BeginTx` arm -/
+def commitGoKeep : Option Nat → List Rec → List Tx → List Rec → Except PErr (List Tx)
+  | _, _, out, [] => .ok out
+  | cur, pend, out, r :: rs =>
+    match r with
+    | .beginTx t => commitGoKeep (some t) pend out rs
+    | .commitTx t =>
+      if cur ≠ some t then .error .commitWithoutBegin
+      else commitGoKeep none [] (out ++ [⟨t, pend⟩]) rs
+    | other =>
+      if cur = none then .error .opOutsideTx
+      else commitGoKeep cur (pend ++ [other]) out rs
+
+/-- the grouping as the current source does it -/
+def committedCfg (cfg : Cfg) (rs : List Rec) : Except PErr (List Tx) :=
+  if cfg.beginResetsPending then committed rs else commitGoKeep none [] [] rs
+
 /-- why opening failed -/
 inductive OErr
   | read (e : RErr)
@@ -131,7 +153,7 @@ inductive OErr
     record `i` is raised before record `i + 1` is read; a reader error surfaces only if the records before it
     were accepted -/
 def recover (cfg : Cfg) (file : Bytes) : Except OErr (List Tx) :=
-  match committed (readAll cfg file).1 with
+  match committedCfg cfg (readAll cfg file).1 with
   | .error e => .error (.proto e)
   | .ok txs =>
     match (readAll cfg file).2 with
